@@ -1207,6 +1207,42 @@ wait:
 	return out, ch
 }
 
+var lockNote struct {
+	once sync.Once
+	txt  string
+}
+
+// lockOrderNote runs the fact extractor on the tree this binary was built from (overlay honoured) and says which edges of
+// the lock-nesting table break the proof obligation Spec.C13.C13_lock_order_acyclic - so that the replay of a goroutine
+// parked on a mutex names the static cause next to the failing input.
+func lockOrderNote() string {
+	lockNote.once.Do(func() {
+		w, _, err := analyse()
+		if err != nil {
+			return
+		}
+		var bad []string
+		for e, sites := range w.nest {
+			if e[0] == e[1] || (w.onCycle[e[0]] && w.onCycle[e[1]]) {
+				ds := append([]string(nil), sites...)
+				sort.Strings(ds)
+				kind := "cycle edge"
+				if e[0] == e[1] {
+					kind = "SELF edge (re-entrant acquisition of a non-re-entrant mutex)"
+				}
+				bad = append(bad, fmt.Sprintf("%s: %s -> %s %s", kind, e[0], e[1], ds[0]))
+			}
+		}
+		sort.Strings(bad)
+		if len(bad) > 0 {
+			lockNote.txt = "; static facts of this tree: proof obligation Spec.C13.C13_lock_order_acyclic is BROKEN - Gen.C13.lockNesting has " + strings.Join(bad, " | ")
+		} else {
+			lockNote.txt = "; static facts of this tree: lock nesting acyclic (Spec.C13.C13_lock_order_acyclic holds): a section of that mutex must park for another reason"
+		}
+	})
+	return lockNote.txt
+}
+
 func bucket(d time.Duration) string {
 	switch {
 	case d < 100*time.Millisecond:
@@ -1376,7 +1412,11 @@ func Run(c *hx.Ctx) {
 					if out.stopped == "hang" {
 						kind = "never-returns"
 					}
-					c.Report(fmt.Sprintf("C13/stop/%s-%s/%s", l, kind, why), fmt.Sprintf("%s still running %v after the stop request (%s); Run took %v", l, promptBound, why, out.took))
+					note := ""
+					if strings.HasPrefix(why, "lock-in-") {
+						note = lockOrderNote() // a goroutine parked on a mutex: what the static lock-nesting table of this tree says
+					}
+					c.Report(fmt.Sprintf("C13/stop/%s-%s/%s", l, kind, why), fmt.Sprintf("%s still running %v after the stop request (%s); Run took %v%s", l, promptBound, why, out.took, note))
 				}
 			}
 			inv := "ok"
